@@ -519,7 +519,9 @@ func colOps() []opGen {
 	add("update-c-notfound", func(n int) sm.Op { return up("c", val(1, "z"), sm.Opts{}) })
 	add("update-a-expect-fail", func(n int) sm.Op { return up("a", val(9, "q"), sm.Opts{ExpectValue: val(99, "nope")}) })
 	add("update-a-check", func(n int) sm.Op { return up("a", val(9, "q"), sm.Opts{ExpectCheck: true}) })
-	add("update-a-badmask", func(n int) sm.Op { return up("a", val(9, "q"), sm.Opts{HasUpdateMask: true, UpdateMask: []string{"bogus"}}) })
+	add("update-a-badmask", func(n int) sm.Op {
+		return up("a", val(9, "q"), sm.Opts{HasUpdateMask: true, UpdateMask: []string{"bogus"}})
+	})
 	add("delete-a", func(n int) sm.Op { return sm.Op{Kind: sm.Delete, ID: "a"} })
 	add("delete-b-allowmissing", func(n int) sm.Op { return sm.Op{Kind: sm.Delete, ID: "b", Opts: sm.Opts{AllowMissing: true}} })
 	add("delete-c-notfound", func(n int) sm.Op { return sm.Op{Kind: sm.Delete, ID: "c"} })
@@ -546,7 +548,9 @@ func valOps() []opGen {
 	})
 	add("set-expect-fail", func(n int) sm.Op { return set(val(9, "q"), sm.Opts{ExpectValue: val(99, "nope")}) })
 	add("set-check", func(n int) sm.Op { return set(val(9, "q"), sm.Opts{ExpectCheck: true}) })
-	add("set-badmask", func(n int) sm.Op { return set(val(9, "q"), sm.Opts{HasUpdateMask: true, UpdateMask: []string{"bogus"}}) })
+	add("set-badmask", func(n int) sm.Op {
+		return set(val(9, "q"), sm.Opts{HasUpdateMask: true, UpdateMask: []string{"bogus"}})
+	})
 	return out
 }
 
